@@ -414,7 +414,7 @@ def main(tier, seed):
     names = sorted({c.__name__ for c in discover.avp_classes()})
     batches = [{"kind": "dictionary", "seed": seed}]
     for i in range(0, len(names), 8):
-        batches.append({"kind": "types", "classes": names[i:i + 8], "seed": seed * 31 + i, "n_in": 60 if q else 3000})
+        batches.append({"kind": "types", "classes": names[i:i + 8], "seed": seed * 31 + i, "n_in": 60 if q else 40000})
     acc = harness.run_workers("checks.c10_dictionary", "run_batch", batches, 1500)
     return harness.finish(PROP, tier, seed, "exploration", acc, RULE,
                           ["refdict.json is the published dictionary: frozen from the reviewed pinned tree, codes/vendors/types "
